@@ -209,8 +209,8 @@ def _akey(atoms):
     return ",".join(a.replace(" ", "") for a in atoms).replace("/", "_").replace("*", "_").replace("?", "_").replace("[", "<").replace("]", ">")
 
 
-def depth1():
-    for name, rtype, args, tmpl in OPS:
+def depth1(only=None):
+    for name, rtype, args, tmpl in OPS if only is None else [OPS[only]]:
         for atoms in _atom_combos(args):
             expr = tmpl.format(*atoms)
             yield case(f"expr/d1/lit/{name}/{_akey(atoms)}", f"def case__S__():\n    return {expr}\n", "case__S__()")
@@ -229,9 +229,9 @@ def _inner_instances(o, all_atoms):
         yield "rep", tmpl.format(*_rep_args(args))
 
 
-def depth2(all_atoms):
+def depth2(all_atoms, only=None):
     by = _by_rtype()
-    for name, rtype, args, tmpl in OPS:
+    for name, rtype, args, tmpl in OPS if only is None else [OPS[only]]:
         for pos, at in enumerate(args):
             for it in ACCEPTS[at]:
                 for inner in by.get(it, ()):
@@ -242,9 +242,9 @@ def depth2(all_atoms):
                         yield case(f"expr/d2/{name}/{pos}/{inner[0]}/{ik}", f"def case__S__():\n    return {expr}\n", "case__S__()")
 
 
-def depth3():
+def depth3(only=None):
     by = _by_rtype()
-    for name, rtype, args, tmpl in OPS:
+    for name, rtype, args, tmpl in OPS if only is None else [OPS[only]]:
         for pos, at in enumerate(args):
             for mt in ACCEPTS[at]:
                 for mid in by.get(mt, ()):
@@ -266,3 +266,23 @@ def cases(thorough):
     yield from depth2(all_atoms=thorough)
     if thorough:
         yield from depth3()
+
+
+def tasks(thorough, seed):
+    out = []
+    for i in range(len(OPS)):
+        out.append(("expr", "d1", i, False))
+        out.append(("expr", "d2", i, thorough))
+        if thorough:
+            out.append(("expr", "d3", i, False))
+    out.sort(key=lambda d: {"d3": 0, "d2": 1, "d1": 2}[d[1]])
+    return out
+
+
+def expand(desc):
+    _, d, i, flag = desc
+    if d == "d1":
+        return depth1(only=i)
+    if d == "d2":
+        return depth2(flag, only=i)
+    return depth3(only=i)
